@@ -511,6 +511,7 @@ def relpar_cfgs(tier, seed):
     for (threads, kw) in [(1, dict(n=3, m=2, s=1, p=2, w="diag")), (2, dict(n=3, m=2, s=3, p=2, w="diag", mrhs=1, maxpaths=16)), (4, dict(n=3, m=2, s=1, p=2, w="none", eps="sym")),
                           (3, dict(n=2, m=2, s=5, p=1, w="none", mrhs=1, maxpaths=8)),
                           (2, dict(n=3, m=2, s=1, p=5, w="diag", maxpaths=8)),
+                          (4, dict(n=2, m=2, s=9, p=1, w="none", mrhs=1, maxpaths=4)),
                           (16, dict(n=3, m=2, s=2, p=2, w="diag", mrhs=1, deriv_fail=1)), (3, dict(n=2, m=1, s=1, p=1, w="diag", real_svd=1))]:
         d = dict(useed=u, vseed=v, threads=threads)
         d.update(kw)
